@@ -89,7 +89,7 @@ mutual
         (by simp only [fmtTerms, tailL, List.append_assoc])
       have hpl : (L.compL ++ conn).length = L.compL.length + conn.length := by simp
       rw [hpl] at hloop
-      have := compound_rt hL conn j hj _ _ _ f hloop
+      have := lcompound_rt hL conn j hj _ _ _ f hloop
       simpa [LTerms.toList, LTerms.ofList, LTerms.ofList_toList, hpl] using this
     | .set l .nil r, ht, f + 1, rest, hst => by simp [wfLT] at ht
     | .set l (.cons t ts) r, ht, f + 1, rest, hst => by
@@ -115,7 +115,7 @@ mutual
         (by simp only [List.append_assoc])
       have hpl : (l ++ (noSp L).fmtTerm t).length = l.length + ((noSp L).fmtTerm t).length := by simp
       rw [hpl] at hloop
-      have := set_rt hL l r hp t _ _ _ _ f hterm hloop
+      have := lset_rt hL l r hp t _ _ _ _ f hterm hloop
       simpa [LTerms.toList, LTerms.ofList, LTerms.ofList_toList, hpl] using this
     | .stmt cop a b, ht, f + 1, rest, hst => by
       simp only [wfLT, Bool.and_eq_true, List.contains_eq_mem, decide_eq_true_eq] at ht
@@ -137,7 +137,7 @@ mutual
       cases f with
       | zero => exact .inl (by simp [segStatement])
       | succ f =>
-      exact statement_rt hL cop hc a b _ _ rest f
+      exact lstatement_rt hL cop hc a b _ _ rest f
         (rt_lterm a ha f _ (copula_stopL hL hc _)) (rt_lterm b hb f _ hstR)
 
   theorem rt_lcomps : ∀ (ts : LTerms), wfLTs L ts = true → ∀ (right : Str), right ∈ lRights L → ∀ (rest : Str)
